@@ -8,9 +8,10 @@ use crate::util::hexs;
 use markdown_it::MarkdownIt;
 
 fn custom_doc(rng: &mut Rng) -> String {
-    let pred = *rng.pick(&["para", "> quote", "- item", "- a\n  - nested", "```\nfence\n```", "# head", "1. one", "> - q", "[r]: /u", "para\nline2", "- a\n\n  b", "***", "<div>"]);
-    let sep = *rng.pick(&["\n", "\n", "\n\n", "\n  ", "\n> ", "\n   "]);
-    let post = *rng.pick(&["", "\nb", "\n\nb", "\n@@@", "\n- c"]);
+    let pred = *rng.pick(&["para", "> quote", "- item", "- a\n  - nested", "```\nfence\n```", "# head", "1. one", "> - q", "[r]: /u", "para\nline2", "- a\n\n  b", "***", "<div>",
+                          "- > quote", "- > q\n  > r", "1. > q", "- - > q", "> - > q", "- a\n  > q"]);
+    let sep = *rng.pick(&["\n", "\n", "\n\n", "\n  ", "\n> ", "\n   ", "\n  ", "\n    "]);
+    let post = *rng.pick(&["", "\nb", "\n\nb", "\n@@@", "\n- c", "\n  tail", " one\n  tail", "\n   tail"]);
     format!("{}{}@@@{}", pred, sep, post)
 }
 
@@ -86,11 +87,15 @@ pub fn run(n: usize, rng: &mut Rng, rep: &mut Report) {
         let mut htmls = vec![];
         for (style_a, r, log) in outs.iter() {
             let html = match r { Ok(h) => h.clone(), Err(_) => { rep.stats.count("skipped_panic_C01"); continue; } };
-            htmls.push(html);
-            let claimed: Vec<usize> = log.iter().filter(|(s, _, ok)| *s && *ok).map(|(_, l, _)| *l).collect();
-            let real: Vec<usize> = log.iter().filter(|(s, _, ok)| !*s && *ok).map(|(_, l, _)| *l).collect();
-            if let Some(l) = claimed.iter().find(|l| !real.contains(l)) {
-                rep.violation("claimed-line-skipped", input.clone(), format!("style {}: rule claimed line {} in look-ahead mode but was never invoked for real there (real at {:?})", if *style_a { "A" } else { "B" }, l, real));
+            htmls.push(html.clone());
+            // "no line of the source is silently skipped": every @@@ line either became the custom block or its text is
+            // still in the output (paragraph continuation, code, raw html). A claim made during a speculative container
+            // scan need not be honoured at that very line (lazy continuation lines, html blocks running to a blank line).
+            let real = log.iter().filter(|(s, _, ok)| !*s && *ok).count();
+            let in_src = d.matches("@@@").count();
+            let in_out = html.matches("@@@").count() + html.matches("<hr>@").count();
+            if in_out != in_src {
+                rep.violation("source-line-lost", input.clone(), format!("style {}: the source has {} @@@ lines, the output shows {} (custom blocks built: {}): {:?}", if *style_a { "A" } else { "B" }, in_src, in_out, real, html));
             }
         }
         if htmls.len() == 2 && htmls[0] != htmls[1] {
